@@ -9,6 +9,7 @@ import tlc, execpool
 from core import log
 
 ALIAS_SIG = "C05/NoInterference/alias-after-define-from-variable"
+ALIAS_SUB_SIG = "C05/NoInterference/alias-after-define-from-subexpression"
 
 def corpus(tier):
     from areas.c09 import repo_programs
@@ -86,11 +87,16 @@ def run(rep, tier, seed):
         ev = json.loads(lines[m["l"] - 1]); prev = json.loads(lines[m["l"] - 2])
         evs = outs[sidx][0]["events"]
         # names related by define-from-variable earlier in this program
-        pairs = []
+        pairs = []; subpairs = []
         for e in evs[:j]:
             if e["ok"] and e["from"] != "-":
                 for tname in e["targets"]: pairs.append((tname, e["from"]))
-        comp = closure(pairs)
+            # a define whose right-hand side reads PART of a variable (x.a, x.1, x[i], [x]; the probe family (b) `~zzaK := <such a source>`
+            # and the program's own statements): on the pinned tree it shares storage with that variable
+            if e["ok"] and e.get("bases") and e["kind"] in ("Define", "Destructure"):
+                for tname in e["targets"]:
+                    for b in e["bases"]: subpairs.append((tname, b))
+        comp = closure(pairs + subpairs)
         pre, post = prev["store"], ev["store"]
         changed = [n for n in pre if n in post and pre[n] != post[n]]
         others = [n for n in changed if n not in ev["targets"]]
@@ -105,7 +111,9 @@ def run(rep, tier, seed):
         alias_part = bool(others) and all(n in comp.get(tgt, ()) for n in others)
         destr_part = "AssignImmutableAccepted" in rules and defined_by.get(tgt) == "Destructure"
         rest = set(rules)
-        if alias_part: sigs.append(ALIAS_SIG); rest -= {"NoInterference", "ImmutableStable"}
+        if alias_part:
+            via_sub = any(tgt == a or tgt == b for a, b in subpairs) or any(n == a for n in others for a, b in subpairs)
+            sigs.append(ALIAS_SUB_SIG if via_sub else ALIAS_SIG); rest -= {"NoInterference", "ImmutableStable"}
         if destr_part: sigs.append("C05/Mutability/Destructure"); rest -= {"AssignImmutableAccepted", "ImmutableStable"}
         if rest or not sigs:
             # anything else is keyed by the rules broken, the statement kind and the specific program
